@@ -12,7 +12,9 @@ Taken from the source text:
     two tokens that are prepended;
   * `exec_git_with_profile` / `exec_git_stdin_with_profile`: the environment variables removed, and that
     the argv is `args_with_internal_git_profile(&args_with_disabled_hooks_if_needed(args), profile)`;
-  * `Repository::global_args_for_exec`: the option appended when absent.
+  * `Repository::global_args_for_exec`: the option appended when absent;
+  * `find_repository`: the three-way normalisation of the user's global args, `absolutize_git_dir_and_work_tree`
+    (option names + skeleton) and `resolve_command_base_dir` (skeleton).
 Anything else in those places -> GenError (never a guess).
 """
 import re
@@ -182,9 +184,12 @@ def generate(L):
                "let args = strip_profile_conflicts(args.to_vec(), profile); "
                "let Some(command_index) = first_git_subcommand_index(&args) else { return args; }; "
                "let options = profile_options(profile); if options.is_empty() { return args; } "
+               "let options_end = args[command_index + 1..] .iter() .position(|arg| arg == \"--\") "
+               ".map_or(args.len(), |offset| command_index + 1 + offset); "
+               "let present = &args[command_index + 1..options_end]; "
                "let mut out = Vec::with_capacity(args.len() + options.len()); "
                "out.extend(args[..=command_index].iter().cloned()); "
-               "for option in options { if !args.iter().any(|arg| arg == option) { out.push((*option).to_string()); } } "
+               "for option in options { if !present.iter().any(|arg| arg == option) { out.push((*option).to_string()); } } "
                "out.extend(args[command_index + 1..].iter().cloned()); out")
     if aw != want_aw:
         raise L.GenError(f"args_with_internal_git_profile: unrecognised body {aw!r}")
@@ -232,9 +237,45 @@ def generate(L):
     fr = _norm(_body(L.find_fn(src, "find_repository", REL)))
     want_fr = ("if normalized_global_args.is_empty() { normalized_global_args = vec![\"-C\".to_string(), command_root]; } "
                "else if normalized_global_args.len() == 2 && normalized_global_args[0] == \"-C\" "
-               "&& normalized_global_args[1] != command_root { normalized_global_args[1] = command_root; }")
+               "&& normalized_global_args[1] != command_root { normalized_global_args[1] = command_root; } "
+               "else if normalized_global_args.len() != 2 || normalized_global_args[0] != \"-C\" { "
+               "let names = |option: &str| { normalized_global_args.iter().any(|arg| { arg.strip_prefix(option) "
+               ".is_some_and(|rest| rest.is_empty() || rest.starts_with('=')) }) }; "
+               "let discovered_git_dir = names(\"--work-tree\") && !names(\"--git-dir\"); "
+               "absolutize_git_dir_and_work_tree(&mut normalized_global_args, &command_base_dir); "
+               "if discovered_git_dir { normalized_global_args.push(format!(\"--git-dir={}\", git_dir.display())); } "
+               "normalized_global_args.push(\"-C\".to_string()); normalized_global_args.push(command_root); }")
     if want_fr not in fr or "global_args: normalized_global_args," not in fr:
         raise L.GenError("find_repository: normalisation of global args changed")
+    if ("let git_dir = if Path::new(git_dir_str).is_relative() { command_base_dir.join(git_dir_str) } "
+            "else { PathBuf::from(git_dir_str) };") not in fr:
+        raise L.GenError("find_repository: git_dir is no longer the --git-dir line joined to command_base_dir")
+    if "let command_base_dir = resolve_command_base_dir(global_args)?;" not in fr:
+        raise L.GenError("find_repository: command_base_dir is no longer resolve_command_base_dir(global_args)")
+    ab = _norm(_body(L.find_fn(src, "absolutize_git_dir_and_work_tree", REL)))
+    am = re.search(r"for option in \[((?:\"[^\"]*\"(?:, )?)+)\]", ab)
+    if not am:
+        raise L.GenError("absolutize_git_dir_and_work_tree: option list not found")
+    path_opts = re.findall(L.STR_LIT, am.group(1))
+    want_ab = ("let mut idx = 0usize; while idx < global_args.len() { for option in [OPTS] { "
+               "if global_args[idx] == option { "
+               "if idx + 1 < global_args.len() && Path::new(&global_args[idx + 1]).is_relative() { "
+               "global_args[idx + 1] = base.join(&global_args[idx + 1]).display().to_string(); } } "
+               "else if let Some(value) = global_args[idx] .strip_prefix(option) .and_then(|rest| rest.strip_prefix('=')) "
+               "&& Path::new(value).is_relative() { "
+               "global_args[idx] = format!(\"{}={}\", option, base.join(value).display()); } } idx += 1; }")
+    if ab.replace(am.group(1), "OPTS") != want_ab:
+        raise L.GenError(f"absolutize_git_dir_and_work_tree: unrecognised body {ab!r}")
+    rb = _norm(_body(L.find_fn(src, "resolve_command_base_dir", REL)))
+    want_rb = ("let mut base = std::env::current_dir().map_err(GitAiError::IoError)?; let mut idx = 0usize; "
+               "while idx < global_args.len() { if global_args[idx] == \"-C\" { "
+               "let path_arg = global_args.get(idx + 1).ok_or_else(|| { "
+               "GitAiError::Generic(\"Missing path after -C in global git args\".to_string()) })?; "
+               "let next_base = PathBuf::from(path_arg); "
+               "base = if next_base.is_absolute() { next_base } else { base.join(next_base) }; idx += 2; continue; } "
+               "idx += 1; } Ok(base)")
+    if rb != want_rb:
+        raise L.GenError(f"resolve_command_base_dir: unrecognised body {rb!r}")
 
     out = []
     out.append("(* value-taking global options skipped by first_git_subcommand_index: "
@@ -260,6 +301,8 @@ def generate(L):
     out.append("Definition gen_env_removed : list (list N) :=\n  " + _strs(L, removed) + ".")
     out.append("(* global_args_for_exec appends this option when absent *)")
     out.append("Definition gen_exec_global_opt : list N := " + L.coq_str(L.unescape(gm.group(1))) + f".   (* {gm.group(1)} *)")
-    out.append("(* find_repository: [] -> [-C root]; [-C x] -> [-C root]; anything else is left as typed *)")
+    out.append("(* find_repository: [] -> [-C root]; [-C x] -> [-C root]; anything else keeps its options, gets the values of\n"
+               "   " + " ".join(path_opts) + " made absolute and a final -C root *)")
+    out.append("Definition gen_path_opts : list (list N) :=\n  " + _strs(L, path_opts) + ".")
     out.append("Definition gen_norm_flag : list N := " + L.coq_str(L.unescape("-C")) + ".")
     return "\n".join(out)
